@@ -358,7 +358,72 @@ def k_ham(params):
     return res(evals=n, nontrivial=nontriv, viol=list(viol.values()), sample={"ham": params["ham"], "propagations": n})
 
 
-KINDS = {"user": k_user, "raw": k_raw, "system": k_system, "ham": k_ham}
+def k_raw_directed(params):
+    """raw Integrator.integrate on a direction-reversed system wrapper (_DirectedSystem(sys, -1)) over uniform and strongly non-uniform ascending grids:
+    every returned sample (not only the last) must be the flow at minus the elapsed time"""
+    rk = _L["rk"]
+    Directed = _L["Directed"]
+    viol = {}
+    n = 0
+    nontriv = 0
+    which = params["system"]
+    y0 = np.array(params["y0"], dtype=float)
+    if which == "user":
+        base = _user()
+        flow = lambda t: user_flow(y0, t)
+        integ = {"fixed4": lambda: rk.RungeKutta(order=4), "fixed8": lambda: rk.RungeKutta(order=8),
+                 "rk45": lambda: rk.AdaptiveRK(order=5, rtol=1e-10, atol=1e-12), "dop853": lambda: rk.AdaptiveRK(order=8, rtol=1e-10, atol=1e-12)}
+    else:
+        from engine import hamref
+        from scipy.integrate import solve_ivp
+
+        p = hamref.ham_menu()["cubic_mixed"]
+        base = hamref.make_hamsys(p)
+        fpy = hamref.grad_py(p)
+
+        def flow(t):
+            if t == 0:
+                return y0.copy()
+            return solve_ivp(fpy, (0.0, t), y0, method="DOP853", rtol=1e-13, atol=1e-14).y[:, -1]
+        integ = {"fixed4": lambda: rk.RungeKutta(order=4), "fixed8": lambda: rk.RungeKutta(order=8), "dop853": lambda: rk.AdaptiveRK(order=8, rtol=1e-10, atol=1e-12),
+                 "symplectic4": lambda: _L["Sym"](order=4), "symplectic6": lambda: _L["Sym"](order=6)}
+    for fwd in (1, -1):
+        dsys = Directed(base, fwd)
+        for iname, mk in integ.items():
+            for gkind in ("uniform", "quadratic", "jagged"):
+                N = 161
+                u = np.linspace(0.0, 1.0, N)
+                if gkind == "quadratic":
+                    u = u ** 2
+                elif gkind == "jagged":
+                    mult = np.array([1.0, 3.0, 0.5, 2.0, 0.7])
+                    d = np.array([mult[i % 5] for i in range(N - 1)])
+                    u = np.concatenate(([0.0], np.cumsum(d))) / float(np.sum(d))
+                t = 1.5 * u
+                n += 1
+                tag = "system=%s direction=%d integrator=%s grid=%s" % (which, fwd, iname, gkind)
+                try:
+                    sol = mk().integrate(dsys, y0, t)
+                except Exception as exc:
+                    viol.setdefault("raw_directed/raised/%s" % iname, violation("raw_directed/raised/%s" % iname, "integrate raised %s: %s [%s]" % (type(exc).__name__, str(exc)[:120], tag)))
+                    continue
+                if fwd == -1:
+                    nontriv += 1
+                if sol.states.shape[0] != len(t):
+                    viol.setdefault("raw_directed/shape/%s" % iname, violation("raw_directed/shape/%s" % iname, "wrong number of samples [%s]" % tag))
+                    continue
+                tol = 3e-3 if iname.startswith("symplectic") else (2e-5 if iname == "fixed4" else 1e-7)
+                for k in (N // 5, N // 2, (4 * N) // 5, N - 1):
+                    ref = flow(fwd * float(t[k]))
+                    err = float(np.max(np.abs(sol.states[k] - ref))) / (1 + float(np.max(np.abs(ref))))
+                    if err > tol:
+                        key = "raw_directed/interior_sample/%s/%s" % (iname, gkind)
+                        viol.setdefault(key, violation(key, "sample %d (elapsed %.4f) of the %s-directed system differs from the flow at t=%.4f by %.3e [%s]" % (k, t[k], "backward" if fwd == -1 else "forward", fwd * t[k], err, tag), sol.states[k], ref))
+                        break
+    return res(evals=n, nontrivial=nontriv, viol=list(viol.values()), sample={"system": which, "integrations": n})
+
+
+KINDS = {"user": k_user, "raw": k_raw, "system": k_system, "ham": k_ham, "raw_directed": k_raw_directed}
 
 
 def cases(tier, seed):
@@ -368,6 +433,8 @@ def cases(tier, seed):
         out.append(("user", {"y0": y0}))
     out.append(("raw", {"system": "user", "y0": [1.0 + o[0], 0.2, 0.3, -0.1]}))
     out.append(("raw", {"system": "ham", "y0": [0.2, -0.3, 0.25 + 0.1 * o[2], 0.1, 0.3, -0.2]}))
+    out.append(("raw_directed", {"system": "user", "y0": [1.0 + o[0], 0.2, 0.3, -0.1]}))
+    out.append(("raw_directed", {"system": "ham", "y0": [0.2, -0.3, 0.25 + 0.1 * o[2], 0.1, 0.3, -0.2]}))
     for mu in ((0.01215,) if tier == "quick" else (0.01215, 3.0e-6, 0.3)):
         out.append(("system", {"mu": mu, "y0": [0.82 + 0.01 * o[0], 0.02, 0.05, 0.03, 0.15, -0.02]}))
     for ham in (("cubic_mixed",) if tier == "quick" else ("cubic_mixed", "q2p2", "saddle_center")):
